@@ -73,6 +73,12 @@ CHECKS["C13"] = ("effect typing of the to_tk handlers against abstractly constru
     "as dg operations and read back, that loops over a batch of circuits read scalar / post_selection / counts of the current item, the Born rule on scalars, the order and totality of the dispatch for 20 box classes, "
     "init_and_discard / remove_ket1 / the from_tk postlude. Equality of output distributions on a simulator and the swap routing of from_tk are not decided.",
     TB, "DESIGN.md §4 C13")
+CHECKS["C19"] = ("typestate / partition analysis of the closures of Function.then / tensor / id on symbolic wire rows (words + linear facts), finite-domain folding of tuplify / untuplify, "
+    "reference interpretation of the structural constructors on wire labels for bounded widths, shape comparison of Diagram.__call__, dependency on the functor-wiring rules of C04",
+    "Decides that raw results pass through tuplify before being concatenated or splatted and every closure returns a raw result, that `self` / `other` receive exactly their own wires (symbolic widths incl. 0 and 1) "
+    "with outputs in order, the arity guards, that Diagram.__call__ is the functor into Functions on the boxes' own functions, and that SWAP / COPY / DISCARD and Swap(l, r) / Copy(n) / Discard(n) realise the block "
+    "permutation / duplication / deletion for all widths up to the bound (quick 3, thorough 5). User functions returning a tuple as one value and widths above the bound are not decided.",
+    TB, "DESIGN.md §4 C19")
 NOT_YET = "check not built yet in this round (static rules designed in DESIGN.md §4; will be claimed when the rule module lands)"
 NOT_APPLICABLE = {("C%02d" % i): NOT_YET for i in range(1, 21) if ("C%02d" % i) not in CHECKS}
 NOTES = ("All checks are static analyses of /repo/discopy's source (python -m sa.check <id>); exit 0 / 1 (VIOLATION) / 2 (ANALYSIS-ERROR). "
